@@ -16,7 +16,7 @@ def run(tier, seed):
     T = 90 if tier == 'quick' else 300
     chk.bounds = {'header': 'symbolic subset (6 booleans) of four 6-name pools containing all five priority names and prefix/case-sharing others',
                   'rows': 'three series of symbolic ragged lengths 0..4, position-coded cells, formats %d %.5g %0.2f %s, rendered twice',
-                  'after solve': 'horizon T 0..3 (symbolic), exogenous length 0..5 (symbolic), reduction on/off', 'per_condition_timeout_s': T}
+                  'after solve': 'horizon T 0..3 (symbolic), exogenous length 0..5 (symbolic), reduction on/off, one extra line from 9 that define no variable of the system (initial condition for an unknown / exogenous / lagged name, malformed lines, parameter, comment)', 'per_condition_timeout_s': T}
     chk.assumptions = ['cell values are concrete position codes (symbolic values through %-formatting are realised by CrossHair); structure, lengths, '
                        'selection and horizon are symbolic']
     chk.outside = ['"parsing the text recovers every value to the format\'s precision": C-level printf formatting realises symbolic values - not '
